@@ -38,6 +38,7 @@ LOSS_RTOL = 2e-5  # per-iteration loss, relative
 LR_RTOL = 1e-6  # learning-rate history, relative
 ARR_RTOL = 2e-4  # object / probe, relative to max|reference|
 ARR_ATOL = 1e-6  # absolute floor (a potential object may be identically zero)
+ADAM_REL = 2e-3  # x (sum of learning rates since the first interruption), Adam/AdamW-driven models only
 SAME_RTOL = 1e-7  # "reports the same object/probe" right after load/clone, relative to max
 SAME_ATOL = 1e-12
 # a reference run whose loss grows beyond this factor (or is not finite) is a diverging optimisation:
@@ -177,33 +178,55 @@ def _illumination(pt):
     return (ill > 0.05 * ill.max()).reshape(shape)
 
 
-def _cmp_obj(case, who, got, want, view):
+def _adam_slack(want, view, key):
+    """Extra absolute tolerance for a model driven by Adam/AdamW: ADAM_REL x the sum of its learning
+    rates over the iterations run since the first interruption (0 for SGD)."""
+    if not view.get(key + "_adam"):
+        return 0.0
+    lrs = np.asarray(want["iter_lrs"].get(key, []), dtype=np.float64)
+    return ADAM_REL * float(np.sum(lrs[view["k0"] :]))
+
+
+def _cmp_obj(case, who, got, want_report, view):
     """Continuation comparison of the object.
 
-    potential objects: every pixel.  complex / pure_phase objects: the well-illuminated pixels, modulo one
-    global phase factor.  Reason: for these types the mean phase is subtracted inside the forward model, so
-    every pixel's gradient carries -mean(h), where sum(h) == 0 analytically (global-phase invariance): the
-    term is pure rounding noise, it is all a never-illuminated pixel sees, and Adam's normalisation turns it
-    into steps of order lr whose sign depends on the summation order (which legitimately differs after a
-    reload: the pattern order is re-seeded).  Those pixels never enter the forward model; through the
-    mean-phase subtraction of the `obj` property they shift the reported object by a global phase."""
+    Pixel set.  Every pixel for an SGD-driven potential object (or analytic gradients).  Otherwise the
+    well-illuminated pixels only:
+      * Adam/AdamW normalises every pixel's step to ~lr whatever the size of its gradient, and the
+        gradient comes back through float32 FFTs, whose rounding error is relative to the largest
+        gradient of the array (measured 1e-7*max|g| per pixel, absolute).  A weakly illuminated pixel with
+        |g| ~ 1e-5*max|g| therefore takes steps that differ by ~1e-2*lr between two summation orders --
+        and the order legitimately differs after a reload (the pattern order is re-seeded).
+      * complex / pure_phase objects with autograd: the mean phase is subtracted inside the forward model,
+        so every pixel's gradient carries -mean(h) with sum(h) == 0 analytically (global-phase invariance):
+        pure rounding noise, and all a never-illuminated pixel sees.  Through the mean-phase subtraction of
+        the `obj` property those pixels shift the reported object by a global phase, which is removed.
+    Tolerance.  ARR_ATOL + ARR_RTOL*max|ref| (+ ADAM_REL * sum of the object learning rates since the first
+    interruption when the object is driven by Adam/AdamW)."""
+    want = np.asarray(want_report["obj"])
     got = np.asarray(got)
-    want = np.asarray(want)
     if got.shape != want.shape:
         _fail(case, "%s: obj has shape %s, expected %s" % (who, got.shape, want.shape))
-    if not view["gauge"]:
+    slack = _adam_slack(want_report, view, "object")
+    if not (view["gauge"] or view.get("object_adam")):
         return _cmp_arr(case, who, "obj", got, want, ARR_RTOL, ARR_ATOL, "obj")
     W = view["W"]
     g = got[:, W]
     w = want[:, W]
-    if not np.all(np.isfinite(g)):
+    if not np.all(np.isfinite(got)):
         _fail(case, "%s: obj is not finite where the reference is" % who)
-    z = np.sum(g * np.conj(w))
-    ph = z / abs(z) if abs(z) > 0 else 1.0
+    ph = 1.0
+    if view["gauge"]:
+        z = np.sum(g * np.conj(w))
+        ph = z / abs(z) if abs(z) > 0 else 1.0
     err = float(np.max(np.abs(g * np.conj(ph) - w)))
-    tol = ARR_ATOL + ARR_RTOL * float(np.max(np.abs(w)))
+    tol = ARR_ATOL + ARR_RTOL * float(np.max(np.abs(w))) + slack
     if _stat("obj", err, tol) > 1.0:
-        _fail(case, "%s: obj differs by %.3e on the illuminated pixels after removing a global phase (tolerance %.3e)" % (who, err, tol))
+        _fail(
+            case,
+            "%s: obj differs by %.3e on the well-illuminated pixels%s (tolerance %.3e)"
+            % (who, err, " after removing a global phase" if view["gauge"] else "", tol),
+        )
 
 
 def _cmp_report(case, who, got, want, exact, view=None):
@@ -228,9 +251,9 @@ def _cmp_report(case, who, got, want, exact, view=None):
             if exact:
                 _cmp_arr(case, who, name, got[name], want[name], SAME_RTOL, SAME_ATOL, "same_" + name)
             elif name == "obj":
-                _cmp_obj(case, who, got[name], want[name], view)
+                _cmp_obj(case, who, got[name], want, view)
             else:
-                _cmp_arr(case, who, name, got[name], want[name], ARR_RTOL, ARR_ATOL, name)
+                _cmp_arr(case, who, name, got[name], want[name], ARR_RTOL, ARR_ATOL + _adam_slack(want, view, "probe"), name)
 
 
 def _dict_diff(a, b, prefix=""):
@@ -389,7 +412,13 @@ def _check_resume(ctx, case):
         A = build.build(case)
         P = build.build(case)
         init_obj = np.array(A.obj)
-        view = {"gauge": case["obj_type"] != "potential" and bool(case["autograd"]), "W": _illumination(A)}
+        view = {
+            "gauge": case["obj_type"] != "potential" and bool(case["autograd"]),
+            "W": _illumination(A),
+            "k0": k,
+            "object_adam": str(case["opt"]["object"]["type"]).lower() != "sgd",
+            "probe_adam": "probe" in case["opt"] and str(case["opt"]["probe"]["type"]).lower() != "sgd",
+        }
         _first_call(A, case, segs[0])
         refs = [_report(A)]
         for i in range(1, len(segs)):
